@@ -371,8 +371,8 @@ class DigestCredentialFactory:
         @param host: The address the request was sent from.
 
         @raise error.LoginFailed: If the response does not contain a username,
-            a nonce, an opaque, if it names an unsupported algorithm, or if
-            the opaque is invalid.
+            a nonce, an opaque, a uri, if it names an unsupported algorithm, or
+            if the opaque is invalid.
 
         @return: L{DigestedCredentials}
         """
@@ -395,6 +395,9 @@ class DigestCredentialFactory:
 
         if "nonce" not in auth:
             raise error.LoginFailed("Invalid response, no nonce given.")
+
+        if "uri" not in auth:
+            raise error.LoginFailed("Invalid response, no uri given.")
 
         # The response can only be checked with an algorithm we know
         if auth.get("algorithm", b"md5").lower() not in algorithms:
